@@ -1,6 +1,7 @@
 import RexModel.Driver.Basic
 import RexModel.Compiled.Schedule
 import RexModel.Compiled.Ring
+import RexModel.Compiled.BufSize
 
 open Lean Rex.Driver Rex.Sched
 
@@ -36,6 +37,15 @@ def replay : Handler := fun j => do
   let start ← fieldNat j "start"
   pure <| Json.mkObj [("ok", Json.bool (replayOk i sizes start)), ("consecutive", Json.bool (consecOk i sizes.length start))]
 
-def handlers : List (String × Handler) := [("sched.check", check), ("sched.replay", replay)]
+/-- {"cmd":"sched.bufsize", "pairs":[{"min_in":[..], "max_out":[..]}, ...]} → {"sizes":[..]} (model of `get_buffer_sizes`, one entry per pair) -/
+def bufsize : Handler := fun j => do
+  let pairs ← fieldArr j "pairs"
+  let sizes ← pairs.mapM fun p => do
+    let a ← getInts (← field p "min_in")
+    let b ← getInts (← field p "max_out")
+    pure (putInt (bufSize a b))
+  pure <| Json.mkObj [("sizes", Json.arr sizes.toArray)]
+
+def handlers : List (String × Handler) := [("sched.check", check), ("sched.replay", replay), ("sched.bufsize", bufsize)]
 
 end Rex.Driver.Sched
